@@ -392,11 +392,46 @@ def run_shard(shard):
     for key, case, detail, count in viol:
         acc.violation(key, case, detail)
         acc.viol[key][0] += count - 1
+    for key, case, detail in buffer_history(t, acc):
+        acc.violation(key, case, detail)
     return acc
+
+
+def buffer_history(t, acc=None):
+    """The six component arrays are BUFFERS that the caller re-uses: evaluate, double their contents in place, evaluate
+    again with the very same array objects.  The second answer must be that of fresh arrays holding the doubled values."""
+    import pylife.stress.equistress as EQ
+    bufs = [np.ascontiguousarray(t[:, i]) for i in range(6)]
+    with warnings.catch_warnings():
+        warnings.simplefilter("ignore")
+        for f in SCALAR_FUNCS:
+            getattr(EQ, f)(*bufs)
+        EQ.principals(*bufs)
+        for b in bufs:
+            b *= 2.0
+        again = {f: np.asarray(getattr(EQ, f)(*bufs), dtype=float) for f in SCALAR_FUNCS}
+        again["principals"] = np.asarray(EQ.principals(*bufs), dtype=float)
+        fresh = _call_columns(2.0 * t)
+    if acc is not None:
+        acc.evaluations += 3 * len(t) * (len(SCALAR_FUNCS) + 1)
+        acc.cases += len(t)
+    out = []
+    for f in list(SCALAR_FUNCS) + ["principals"]:
+        a, b = again[f], fresh[f]
+        bad = ~((a == b) | (np.isnan(a) & np.isnan(b)))
+        if bad.ndim > 1:
+            bad = bad.any(axis=1)
+        if bad.any():
+            i = int(np.argmax(bad))
+            out.append(("C17/%s/stale-after-in-place-change-of-the-argument-arrays" % f, {"tensor": t[i].tolist(), "style": "buffers"},
+                        {"second_call_on_the_same_arrays": np.asarray(a[i]).tolist(), "fresh_arrays_with_the_same_content": np.asarray(b[i]).tolist()}))
+    return out
 
 
 def replay(case):
     t = np.array([case["tensor"]], dtype=float)
     style = case.get("style", "column")
+    if style == "buffers":
+        return [(k, d) for k, c, d in buffer_history(t)]
     viol, _, _ = check_block(t, [(case["rotation"], float(case["scale"]))], "all" if style == "scalar" else "none")
     return [(k, d) for k, c, d, _ in viol]
